@@ -117,7 +117,7 @@ Section Visitors.
     lval (seq_elems de t xs i) = rval (mapM (de_value t) (map strip xs)).
   Proof.
     intros Hde F. induction F as [|x xs Hx _ IH]; intro i; [reflexivity|]. cbn [seq_elems map mapM].
-    rewrite lval_lbind, rval_rbind, lval_under, (Hde x Hx). destruct (rval (de_value t (strip x))); [|reflexivity]. cbn [obind].
+    rewrite lval_lbind, rval_rbind, lval_under, lval_wrap, (Hde x Hx). destruct (rval (de_value t (strip x))); [|reflexivity]. cbn [obind].
     rewrite lval_lbind, rval_rbind, IH. destruct (rval (mapM (de_value t) (map strip xs))); reflexivity.
   Qed.
 
@@ -127,7 +127,7 @@ Section Visitors.
   Proof.
     induction l as [|a l IH]; intros Fl xs i F; [reflexivity|]. inversion Fl; subst. cbn [pos_elems de_pos].
     destruct xs as [|x xs]; [reflexivity|]. inversion F; subst. cbn [map].
-    rewrite lval_lbind, rval_rbind, lval_under, (H1 x H3). destruct (rval (de_value (proj a) (strip x))); [|reflexivity]. cbn [obind].
+    rewrite lval_lbind, rval_rbind, lval_under, lval_wrap, (H1 x H3). destruct (rval (de_value (proj a) (strip x))); [|reflexivity]. cbn [obind].
     rewrite lval_lbind, rval_rbind, (IH H2 xs (S i) H4). destruct (rval (de_pos de_value proj l (map strip xs))) as [[vs rest]|]; reflexivity.
   Qed.
 
@@ -460,7 +460,7 @@ Lemma lval_pos_entries de ts : Forall (agrees de) ts -> forall xs,
 Proof.
   induction ts as [|t ts IH]; intros Ft xs F; [reflexivity|]. inversion Ft; subst. cbn [pos_entries de_pos].
   destruct xs as [|[i e] xs]; [reflexivity|]. inversion F; subst. cbn [map snd] in *.
-  rewrite lval_lbind, rval_rbind, lval_under, (H1 _ H3). destruct (rval (de_value t (strip (en_val e)))); [|reflexivity]. cbn [obind].
+  rewrite lval_lbind, rval_rbind, lval_under, lval_wrap, (H1 _ H3). destruct (rval (de_value t (strip (en_val e)))); [|reflexivity]. cbn [obind].
   rewrite lval_lbind, rval_rbind, (IH H2 xs H4). destruct (rval (de_pos de_value _ ts _)) as [[vs rest]|]; reflexivity.
 Qed.
 
@@ -564,7 +564,7 @@ Proof.
   - (* unit variant *)
     cbn [de_payload De.de_payload]. rewrite (empty_agree s Ok). destruct (empty_container (strip s)); reflexivity.
   - (* newtype variant *)
-    cbn [de_payload De.de_payload]. apply IHt. exact Ok.
+    cbn [de_payload De.de_payload]. rewrite lval_wrap. apply IHt. exact Ok.
   - (* tuple variant *)
     cbn [de_payload De.de_payload]. destruct s as [sp x|sp xs|sp es].
     + cbn [tree_ok] in Ok. cbn [strip]. destruct x; try discriminate; reflexivity.
